@@ -108,6 +108,15 @@ func runC11(c *Ctx) {
 	c11Map(c, []KV{{[]byte("="), []byte(";")}, {[]byte(";"), []byte("=")}, {[]byte("a=b;"), []byte("c=d;")}})
 	c11Map(c, []KV{{nil, nil}})
 	c11Map(c, []KV{{nil, []byte("x")}, {[]byte("\x00"), nil}})
+	// distinct keys that collide under common non-cryptographic hashes (FNV-1/FNV-1a 32-bit,
+	// Java/djb-style multiplicative hashes, CRC-32, same length + same byte sum): key identity
+	// must be decided on the full key
+	for _, pair := range [][2]string{{"costarring", "liquid"}, {"declinate", "macallums"}, {"altarage", "zinke"}, {"altarages", "zinkes"},
+		{"tunnel.84339", "opt128814"}, {"Aa", "BB"}, {"AaAa", "BBBB"}, {"AaBB", "BBAa"}, {"plumless", "buckeroo"}, {"ab", "ba"}, {"abc", "cba"}, {"host", "hots"},
+		{"a\x00", "a"}, {"k", "k "}, {"K", "k"}} {
+		c11Map(c, []KV{{[]byte(pair[0]), []byte("1")}, {[]byte(pair[1]), []byte("2")}})
+		c11Map(c, []KV{{[]byte("first"), nil}, {[]byte(pair[1]), []byte("2")}, {[]byte(pair[0]), []byte("1")}, {[]byte("zz"), []byte("3")}})
+	}
 	for i := 0; i < c.N(600, 20000); i++ {
 		var kvs []KV
 		switch r.Intn(4) {
